@@ -9,6 +9,7 @@ package main
 
 import (
 	"go/ast"
+	"go/token"
 	"go/types"
 
 	"wv/core"
@@ -52,21 +53,14 @@ func runC13More(c *core.Ctx) {
 			}
 			return false
 		}
+		env := newC13Env(fl)
+		// the edge implies len(o) <= 0: `len(o) == 0`, `0 == len(o)`, `len(o) < 1`, `!(len(o) > 0)`, `o == nil`, …
 		lenIsZero := func(cond ast.Expr, o types.Object, taken bool) bool {
-			be, ok := ast.Unparen(cond).(*ast.BinaryExpr)
-			if !ok {
-				return false
-			}
-			call, ok := ast.Unparen(be.X).(*ast.CallExpr)
-			if !ok || len(call.Args) != 1 || fl.Obj(call.Args[0]) != o {
-				return false
-			}
-			id, ok := call.Fun.(*ast.Ident)
-			v, isk := core.ConstInt64(fl.F.Info(), be.Y)
-			if !ok || id.Name != "len" || !isk || v != 0 {
-				return false
-			}
-			return (be.Op.String() == "==" && taken) || (be.Op.String() == "!=" && !taken) || (be.Op.String() == ">" && !taken)
+			T := affA(c13Atom{kind: 'l', obj: o})
+			return env.edgeImplies(cond, taken, cond, func(f c13Aff, op token.Token) bool {
+				r, ok := c13BoundsOn(f, op, T)
+				return ok && r.atMost(0)
+			})
 		}
 		k.mustPass("Z.strip.order", fl.F.Name(), "the chunk is peek0 ++ peek1: trailing zeroes of peek0 may be elided only after peek1 has been stripped…", fl, core.Query{
 			Exit:   func(n ast.Node) bool { return stripOf(n, peek[0]) },
@@ -141,7 +135,11 @@ func runC13More(c *core.Ctx) {
 			}
 			return false
 		}
-		// the alias is harmless in the last iteration of the candidates loop: `key == len(ranged) - 1`
+		// the alias is harmless in the last iteration of the candidates loop: the assignment is
+		// reached only across an edge implying key >= len(ranged)-1 (`i == len(resourcesData)-1`,
+		// `i+1 == len(…)`, `i == last` with `last := len(…)-1`, `i >= len(…)-1`), asked from entry
+		// and from every write to the key.
+		env := newC13Env(fl)
 		lastIter := func(n ast.Node) bool {
 			path := core.PathTo(fl.F.Decl.Body, n)
 			var rng *ast.RangeStmt
@@ -153,29 +151,30 @@ func runC13More(c *core.Ctx) {
 			if rng == nil || rng.Key == nil {
 				return false
 			}
-			for i := len(path) - 1; i >= 1; i-- {
-				is, ok := path[i-1].(*ast.IfStmt)
-				if !ok || path[i] != ast.Node(is.Body) {
-					continue
-				}
-				be, ok := ast.Unparen(is.Cond).(*ast.BinaryExpr)
-				if !ok || be.Op.String() != "==" || fl.Obj(be.X) == nil || fl.Obj(be.X) != fl.Obj(rng.Key) {
-					continue
-				}
-				sub, ok := ast.Unparen(be.Y).(*ast.BinaryExpr)
-				if !ok || sub.Op.String() != "-" {
-					continue
-				}
-				one, isk := core.ConstInt64(fl.F.Info(), sub.Y)
-				call, ok := ast.Unparen(sub.X).(*ast.CallExpr)
-				if !ok || !isk || one != 1 || len(call.Args) != 1 {
-					continue
-				}
-				if id, ok := call.Fun.(*ast.Ident); ok && id.Name == "len" && fl.Obj(call.Args[0]) != nil && fl.Obj(call.Args[0]) == fl.Obj(rng.X) {
-					return true
+			key, ok1 := fl.Obj(rng.Key).(*types.Var)
+			ranged, ok2 := env.lenOf(rng.X, rng.Key, 0)
+			if !ok1 || !ok2 {
+				return false
+			}
+			T := ranged.plus(affA(c13Atom{kind: 'v', obj: key}), -1) // len(ranged) - key
+			edge := func(cond ast.Expr, ci *core.CondInfo, taken bool) bool {
+				return env.edgeImplies(cond, taken, cond, func(f c13Aff, op token.Token) bool {
+					r, ok := c13BoundsOn(f, op, T)
+					return ok && r.atMost(1)
+				})
+			}
+			at := env.nodeOf(n)
+			if at == nil {
+				return false
+			}
+			deps := map[types.Object]bool{types.Object(key): true}
+			for x := range ranged.t {
+				if x.obj != nil {
+					deps[x.obj] = true
 				}
 			}
-			return false
+			esc, _ := c13FromEntryAndEach(fl, env.killsOf(deps), core.Query{Exit: func(m ast.Node) bool { return m == at }, Events: []core.Event{{Edge: edge}}})
+			return len(esc) == 0
 		}
 		aliasAll := aliasAssign
 		aliasAssign = func(n ast.Node) bool { return aliasAll(n) && !lastIter(n) }
